@@ -112,8 +112,9 @@ Proof.
   apply tsumR_ext. intros m _. unfold dfun. dn. fin.
 Qed.
 
-Lemma den_arc_embed d rad ang l x m :
-  den (@arc_embed TE d rad ang l x m) = @arc_embed TR d (dfun rad) (dfun ang) (dfun l) (dfun x) m.
+Lemma den_arc_embed d rad ang l act x m :
+  den (@arc_embed TE d rad ang l act x m)
+  = @arc_embed TR d (dfun rad) (dfun ang) (dfun l) (dfun act) (dfun x) m.
 Proof. unfold arc_embed, dfun. destruct (Nat.ltb m d); dn; fin. Qed.
 
 Lemma den_vnorm d x : den (@vnorm TE d x) = @vnorm TR d (dfun x).
@@ -200,7 +201,10 @@ Proof.
   - dn. rewrite IHk1, IHk2. rewrite <- ?den_vfun. reflexivity.
   - apply den_k_sm.
   - apply den_k_sdelta.
-  - rewrite IHk. rewrite !map_map. f_equal; apply map_ext; intros m; apply den_arc_embed.
+  - rewrite IHk. rewrite !map_map.
+    f_equal; apply map_ext; intros m; rewrite den_arc_embed; unfold dfun;
+      change (fun m0 : nat => den (@vfun TE ?z m0)) with (dfun (@vfun TE z));
+      rewrite ?den_vfun; reflexivity.
   - dn. rewrite IHk, den_cyl_angular. cbn [map]. rewrite !den_kuma, !den_vnorm. reflexivity.
   - apply den_k_hamming.
   - apply den_k_gskl.
